@@ -470,6 +470,21 @@ class ResourcePeriodicallyInterrupted(ResourceConstraint):
                 folded_start_task_i = (start_task_i - self.offset) % self.period
                 folded_end_task_i = (end_task_i - self.offset) % self.period
 
+                # the part of the busy interval that lies in the activity range
+                active_start_task_i = z3.If(
+                    start_task_i >= self.start, start_task_i, self.start
+                )
+                if self.end is not None:
+                    active_end_task_i = z3.If(
+                        end_task_i <= self.end, end_task_i, self.end
+                    )
+                else:
+                    active_end_task_i = end_task_i
+                active_duration = active_end_task_i - active_start_task_i
+                folded_active_start_task_i = (
+                    active_start_task_i - self.offset
+                ) % self.period
+
                 for (
                     interval_lower_bound,
                     interval_upper_bound,
@@ -536,13 +551,16 @@ class ResourcePeriodicallyInterrupted(ResourceConstraint):
                             ]
                         )
                     else:
-                        # ...otherwise make sure the task does not overlap with any of time intervals
+                        # ...otherwise make sure that the part of the task that lies in the
+                        # activity range [start, end) of the pattern does not overlap with
+                        # any of time intervals
                         conds.append(
                             z3.Or(
-                                folded_start_task_i + duration <= interval_lower_bound,
+                                folded_active_start_task_i + active_duration
+                                <= interval_lower_bound,
                                 z3.And(
-                                    folded_start_task_i >= interval_upper_bound,
-                                    folded_start_task_i + duration
+                                    folded_active_start_task_i >= interval_upper_bound,
+                                    folded_active_start_task_i + active_duration
                                     <= interval_lower_bound + self.period,
                                 ),
                             )
